@@ -2,6 +2,9 @@ SPECIFICATION Spec
 CONSTANTS Keys = {1, 2}
           MaxStreams = 4
           MaxLen = 2
-INVARIANTS EmitsEverything SuppressesEarlier FirstStreamWins Emit
+          Passes = 3
+          Kinds = {"prio", "bufprio", "concat"}
+          SmallStreams = 3
+INVARIANTS EmitsEverything SuppressesEarlier FirstStreamWins ConcatForwardsAll EveryPassSame EveryPassComplete Emit
 PROPERTIES Terminates
 CHECK_DEADLOCK FALSE
